@@ -72,6 +72,14 @@ func checkC09(c *Ctx) {
 	c9Atomics(c)
 	c9Blocking(c)
 	c9EncoderPurity(c, "R9.6")
+	c.Rule("R9.10", "BufferedWriteSyncer: every call into the wrapped sink or its bufio writer runs with the mutex held (the sink is documented to need no lock of its own)", 2)
+	for _, m := range []string{"Write", "Sync"} {
+		if fb := c.Method(CorePath, "BufferedWriteSyncer", m); c.Anchor("R9.10", "zapcore.BufferedWriteSyncer."+m, fb != nil) {
+			LockedAcross(c, "R9.10", fb, func(cl ssa.CallInstruction) bool {
+				return IsCallTo(cl, "(*bufio.Writer).Write", "(*bufio.Writer).Flush", "(go.uber.org/zap/zapcore.WriteSyncer).Sync")
+			}, ".mu")
+		}
+	}
 	c.Rule("R9.9", "package-level tables are read-only after initialisation (or written under a lock)", 1)
 	c9GlobalTables(c, "R9.9")
 	c.Rule("R9.8", "no object is touched after it went back to its pool (the next owner may be another goroutine), and derived handlers/cores never share a slice tail with their parent", 8)
